@@ -50,7 +50,8 @@ type Fault struct {
 	// ErrKind selects the error value: for cut "" = io.EOF, "unexpected" =
 	// io.ErrUnexpectedEOF (what an HTTP body reports when the connection drops);
 	// for read_error "" = a custom error, "deadline" = context.DeadlineExceeded,
-	// "closed" = io.ErrClosedPipe.
+	// "closed" = io.ErrClosedPipe, "with_data" = a custom error returned together
+	// with the last bytes before it (n > 0 and err != nil in one Read).
 	ErrKind string `json:"err_kind,omitempty"`
 }
 
